@@ -2,7 +2,7 @@
    Definitions only (proofs live in proofs/MigrateSpec.v).
 
    What the code sees of a module, and what the model keeps of it:
-     * [lines = source_code.splitlines(keepends=True)]  -> a list of physical lines; of a
+     * [lines = io.StringIO(source_code, newline='').readlines()] -> a list of physical lines; of a
        physical line only the pieces of TOP-LEVEL statements lying on it are kept
        ([Frag s k n] = "the k-th of the n physical-line pieces of statement s"), left to
        right; comments, blank space, separators are not represented (a comment-only or
@@ -124,25 +124,33 @@ Definition contrib (mp : mapping_t) (m M : option pystr) (a : alias) : list alia
 (* ------------------------------------------------------------------ physical lines *)
 Inductive frag := Frag (s : stmt) (part total : nat).
 Notation line := (list frag) (only parsing).
-Notation item := (stmt * nat * nat)%type (only parsing).   (* statement, first line, last line *)
+(* a position = (0-based physical line, index among the pieces of that line); the model's
+   image of (lineno - 1, col_offset) and (end_lineno - 1, end_col_offset): the first is the
+   position OF the statement's first piece, the second the position AFTER its last piece *)
+Notation pos := (nat * nat)%type (only parsing).
+Notation item := (stmt * (nat * nat) * (nat * nat))%type (only parsing).
 Definition it_stmt (it : item) : stmt := fst (fst it).
 
-(* an open statement: (statement, its first line, next part expected, parts in total) *)
-Definition pstate := option (stmt * nat * nat * nat).
+(* what the grammar guarantees about a statement: a from-import names at least one name *)
+Definition stmt_wf (s : stmt) : bool :=
+  match s with ImportFrom _ _ [] => false | _ => true end.
+
+(* an open statement: (statement, its start position, next part expected, parts in total) *)
+Definition pstate := option (stmt * (nat * nat) * nat * nat).
 
 Definition prepend (it : item) (r : list item * pstate) : list item * pstate :=
   (it :: fst r, snd r).
 
-(* pieces on line i when no statement is open: each must be a first piece; a statement
-   continuing on the next physical line must be the last thing on this one *)
-Fixpoint eat_frags (i : nat) (l : line) : option (list item * pstate) :=
+(* the pieces from column c on of line i when no statement is open: each must be a first
+   piece; a statement continuing on the next physical line must be the last thing on this one *)
+Fixpoint eat_frags (i c : nat) (l : line) : option (list item * pstate) :=
   match l with
   | [] => Some ([], None)
   | Frag s k n :: l' =>
-      if k =? 0 then
-        if n =? 1 then option_map (prepend (s, i, i)) (eat_frags i l')
+      if stmt_wf s && (k =? 0) then
+        if n =? 1 then option_map (prepend (s, (i, c), (i, S c))) (eat_frags i (S c) l')
         else if 2 <=? n then
-               match l' with [] => Some ([], Some (s, i, 1, n)) | _ => None end
+               match l' with [] => Some ([], Some (s, (i, c), 1, n)) | _ => None end
              else None
       else None
   end.
@@ -150,14 +158,14 @@ Fixpoint eat_frags (i : nat) (l : line) : option (list item * pstate) :=
 (* every physical line inside an open statement starts with that statement's next piece *)
 Definition eat_line (i : nat) (st : pstate) (l : line) : option (list item * pstate) :=
   match st with
-  | None => eat_frags i l
-  | Some (s0, a, k0, n0) =>
+  | None => eat_frags i 0 l
+  | Some (s0, p0, k0, n0) =>
       match l with
       | [] => None
       | Frag s k n :: l' =>
           if stmt_eqb s s0 && (k =? k0) && (n =? n0) then
-            if S k0 =? n0 then option_map (prepend (s0, a, i)) (eat_frags i l')
-            else match l' with [] => Some ([], Some (s0, a, S k0, n0)) | _ => None end
+            if S k0 =? n0 then option_map (prepend (s0, p0, (i, 1))) (eat_frags i 1 l')
+            else match l' with [] => Some ([], Some (s0, p0, S k0, n0)) | _ => None end
           else None
       end
   end.
@@ -176,33 +184,49 @@ Fixpoint parse_lines (i : nat) (st : pstate) (ls : list line) : option (list ite
       end
   end.
 
-(* the top-level statements with their line spans, as ast.parse reads them off the
-   physical lines; None = not a sequence of whole statements (SyntaxError) *)
+(* the top-level statements with their positions, as ast.parse reads them off the physical
+   lines; None = not a sequence of whole statements (SyntaxError) *)
 Definition ast_view (ls : list line) : option (list item) := parse_lines 0 None ls.
 Definition stmts_of (ls : list line) : option (list stmt) := option_map (map it_stmt) (ast_view ls).
 
 (* ------------------------------------------------------------------ rewrite_imports *)
-Definition stmt_line (s : stmt) : line := [Frag s 0 1].    (* f'from {m} import {names}\n' *)
+Definition stmt_frag (s : stmt) : frag := Frag s 0 1.
+Definition stmt_line (s : stmt) : line := [stmt_frag s].   (* f'{statement}\n' *)
 
-Notation replacement := (nat * nat * list (list frag))%type (only parsing).  (* start_line, end_line, replacement_lines *)
+(* (node.lineno-1, node.col_offset), (node.end_lineno-1, node.end_col_offset), statements *)
+Notation replacement := ((nat * nat) * (nat * nat) * list stmt)%type (only parsing).
 
 (* the loop [for node in tree.body]: one replacement per absolute ImportFrom *)
 Definition replacements (mp : mapping_t) (body : list item) : list replacement :=
   flat_map (fun it : item =>
               match it with
-              | (ImportFrom 0 m ns, a, b) => [(a, b, map stmt_line (rewrite_import mp m ns))]
+              | (ImportFrom 0 m ns, p, q) => [(p, q, rewrite_import mp m ns)]
               | _ => []
               end) body.
 
-(* [lines[start:end+1] = repl] (Python slice assignment: an empty slice when end+1 < start) *)
+Definition is_nil {A} (l : list A) : bool := match l with [] => true | _ => false end.
+
+(* one iteration of the final loop.
+     prefix = lines[start_line] up to col_offset      -> the pieces before the import on its first line
+     suffix = lines[end_line] from end_col_offset on  -> the pieces after it on its last line
+   [prefix.strip() or not (rest.startswith('#') or rest.strip('\r\n') == '')]: other code shares
+   the first or last line  -> here: a piece before or a piece after (blanks, one ';' and a
+   comment are not represented).  Then the lines are replaced by ONE line
+   prefix + '; '.join(statements) + suffix, otherwise by one line per statement.
+   [lines[a:b+1] = ...] is Python slice assignment (an empty slice at a when b+1 < a). *)
 Definition splice (r : replacement) (ls : list line) : list line :=
-  let '(a, b, repl) := r in firstn a ls ++ repl ++ skipn (Nat.max a (S b)) ls.
+  let '((a, p), (b, q), stmts) := r in
+  let prefix := firstn p (nth a ls []) in
+  let suffix := skipn q (nth b ls []) in
+  if negb (is_nil prefix) || negb (is_nil suffix)
+  then firstn a ls ++ [prefix ++ map stmt_frag stmts ++ suffix] ++ skipn (Nat.max a (S b)) ls
+  else firstn a ls ++ map stmt_line stmts ++ skipn (Nat.max a (S b)) ls.
 
 (* [for ... in reversed(replacements)]: the last replacement is applied first *)
 Definition apply_replacements (reps : list replacement) (ls : list line) : list line :=
   fold_right splice ls reps.
 
-(* [ls] = splitlines view, [body] = ast view of the same source; None = "nothing to do" *)
+(* [ls] = the line list, [body] = ast view of the same source; None = "nothing to do" *)
 Definition rewrite_imports (mp : mapping_t) (ls : list line) (body : list item) : option (list line) :=
   match replacements mp body with
   | [] => None
@@ -217,18 +241,19 @@ Definition rewrite_source (mp : mapping_t) (ls : list line) : result (option (li
   end.
 
 (* ------------------------------------------------------------------ decidable hypotheses *)
-Definition frag_rewritten (f : frag) : bool := let 'Frag s _ _ := f in rewritten s.
-
-(* no physical line is shared between a rewritten import and anything else *)
-Definition line_disjoint (ls : list line) : bool :=
-  forallb (fun l : line => negb (existsb frag_rewritten l) || (length l =? 1)) ls.
-
+Definition pos_eqb (a b : nat * nat) : bool := (fst a =? fst b) && (snd a =? snd b).
 Definition item_eqb (a b : item) : bool :=
-  stmt_eqb (it_stmt a) (it_stmt b) && (snd (fst a) =? snd (fst b)) && (snd a =? snd b).
+  stmt_eqb (it_stmt a) (it_stmt b) && pos_eqb (snd (fst a)) (snd (fst b)) && pos_eqb (snd a) (snd b).
 
-(* the line numbers ast reports are the indices of the list splitlines returns *)
+(* the positions ast reports are positions in the list the implementation splits *)
 Definition aligned (ls : list line) (body : list item) : bool :=
   option_eqb (list_eqb item_eqb) (ast_view ls) (Some body).
+
+(* some rewritten import shares a physical line with another piece (layout only: decides
+   between the one-line and the line-per-statement replacement) *)
+Definition frag_rewritten (f : frag) : bool := let 'Frag s _ _ := f in rewritten s.
+Definition line_disjoint (ls : list line) : bool :=
+  forallb (fun l : line => negb (existsb frag_rewritten l) || (length l =? 1)) ls.
 
 (* ------------------------------------------------------------------ table predicates *)
 Definition flat_mapping (mp : mapping_t) : list (pystr * pystr * (pystr * pystr)) :=
